@@ -207,19 +207,40 @@ func (obj *Package) Unuse(pkg *Package) {
 				break
 			}
 		}
-		// Rebuild to make sure use tree branches are removed as well.
-		obj.vars = map[string]*VarVal{}
-		obj.funcs = map[string]*FuncInfo{}
-		obj.classes = map[string]Class{}
+		// Rebuild to make sure use tree branches are removed as well. The
+		// package's own definitions and imports stay, everything inherited
+		// is dropped and then taken again from the packages still used,
+		// exported definitions only as in Use().
+		for name, vv := range obj.vars {
+			if vv.Pkg != obj && obj.Imports[name] == nil {
+				delete(obj.vars, name)
+			}
+		}
+		for name, fi := range obj.funcs {
+			if fi.Pkg != obj && obj.Imports[name] == nil {
+				delete(obj.funcs, name)
+			}
+		}
+		for name, c := range obj.classes {
+			if c.Pkg() != obj {
+				delete(obj.classes, name)
+			}
+		}
 		for _, p := range obj.Uses {
 			for name, vv := range p.vars {
-				obj.vars[name] = vv
+				if _, has := obj.vars[name]; !has && vv.Export {
+					obj.vars[name] = vv
+				}
 			}
 			for name, fi := range p.funcs {
-				obj.funcs[name] = fi
+				if _, has := obj.funcs[name]; !has && fi.Export {
+					obj.funcs[name] = fi
+				}
 			}
 			for name, c := range p.classes {
-				obj.classes[name] = c
+				if _, has := obj.classes[name]; !has {
+					obj.classes[name] = c
+				}
 			}
 		}
 	}
